@@ -57,3 +57,26 @@ Definition check_prediction_on (c : list Z * list string * string * Z * option s
 Definition check_unc (c : list string * Z * option string) : bool :=
   let '(names, m, observed) := c in
   opt_eqb String.eqb (unc_segment names m) observed.
+
+(* one case type for all streams, so that a run evaluates every comparison in a single batch of coqc processes *)
+Inductive c18case : Type :=
+| CWeights (c : string * Z * list (string * Q))
+| CBinsF (c : list float * list (option float * list (option float)))
+| CBinsQ (c : list Q * list (option Q * list (option Q)))
+| CHow (c : list (Z * Z * Z))
+| COccupancy (c : list bool * list bool * list (bool * option bool * option float * list (option float) * list (option float)))
+| CPrediction (c : string * Z * option string)
+| CPredictionOn (c : list Z * list string * string * Z * option string)
+| CUnc (c : list string * Z * option string).
+
+Definition check_any (c : c18case) : bool :=
+  match c with
+  | CWeights x => check_weights x
+  | CBinsF x => check_bins_float x
+  | CBinsQ x => check_bins_q x
+  | CHow x => check_how x
+  | COccupancy x => check_occupancy x
+  | CPrediction x => check_prediction x
+  | CPredictionOn x => check_prediction_on x
+  | CUnc x => check_unc x
+  end.
